@@ -104,7 +104,7 @@ RoundTripOK ==
              /\ e.from = Len(buf)                                         \* nothing left over but the padding
              /\ e.op.o = "finish" =>
                    ((e.r.w = {}) <=> (IF demo THEN pad < 4 ELSE pad = 0))   \* demo padding rule
-             /\ (e.op.o \in {"int", "str", "data"} /\ pad = 0) => e.r.res = "end"   \* reading past the end fails
+             /\ (e.op.o \in {"int", "str", "strsan", "data", "uuid"} /\ pad = 0) => e.r.res = "end"   \* reading past the end fails
 
 \* reading never runs past the input; results are slices of the input
 NeverPastOK == /\ pos >= 0 /\ pos <= Len(data)
@@ -118,7 +118,8 @@ PoisonedOK == Len(rlog) > 0 =>
                  /\ e.r.res = "end" => e.r.to = Len(data)
                  /\ (\E i \in 1..(Len(rlog) - 1) : rlog[i].r.res = "end") =>
                        /\ e.r.b = <<>> /\ e.from = Len(data)
-                       /\ e.op.o \in {"int", "str", "data"} => e.r.res = "end"
+                       /\ e.op.o \in {"int", "str", "strsan", "data", "uuid"} => e.r.res = "end"
+                       /\ (e.op.o = "raw" /\ e.op.n > 0) => e.r.res = "end"
                        /\ e.op.o = "finish" => e.r.w = {}
 
 Terminal == ph = "done" \/ (ph = "r" /\ Len(rlog) >= Budget)
